@@ -183,6 +183,7 @@ func runC14(c *core.Ctx) {
 	// ---------------- R14e JavaScript VM pool: a VM is returned to the pool only after its globals were wiped and is not
 	// used afterwards (= C20 R20a), otherwise two goroutines share one VM
 	c20VMPool(c, "R14e")
+	poolTypestate(c, "R14e")
 	c.Floor("R14e", 7, "VM pool discipline")
 }
 
